@@ -39,6 +39,14 @@ for id in "$@"; do
   grep -E "VIOLATION|violation in|evaluations=" "$S/check_$id.log" | head -6
   echo "rc=$rc"
   results="$results $id:$rc"
+  # keep the first shrunk failure as a regression replay (it must pass on the unchanged tree)
+  first=$(grep -o "replay=[^ ]*" "$S/check_$id.log" | head -1 | cut -d= -f2)
+  if [ -n "$first" ] && [ -f "$first" ] && [[ "$first" != *"/regress/"* ]] && [[ "$first" != *"/known/"* ]]; then
+    mv "$first" "/verif/replays/regress/$id-seed-$DEST.json"
+  fi
+  for f in $(grep -o "replay=[^ ]*" "$S/check_$id.log" | cut -d= -f2); do
+    [[ "$f" == /verif/replays/$id-* ]] && rm -f "$f"
+  done
 done
 git -C /repo checkout -- .
 # remove replay files the failing checks wrote (they belong to the seeded tree, not to /repo)
